@@ -19,7 +19,7 @@ func init() {
 	Register(&Def{
 		Prop: "C06", Name: "depacketize", Level: "exploration",
 		Build:        buildC06,
-		Cfg:          sim.RunConfig{Grace: time.Minute, Horizon: time.Hour, StepCap: 100000},
+		Cfg:          sim.RunConfig{Grace: time.Minute, Horizon: time.Hour, StepCap: 100000, NoStall: true}, // the script gives the demuxer one simulated second to drain: no time may pass while it works
 		RunsQuick:    16000,
 		RunsThorough: 800000,
 		Real:         []string{"rtp.Demuxer (process goroutine, queue)", "h264 / h265 / aac depacketizers", "rtp.SyncClock (fake clock)", "sdp.ParseMetadata"},
